@@ -49,6 +49,56 @@ pub fn build_mem(s: &RShard, reverse: bool) -> MDBInMemoryShard {
     m
 }
 
+/// The same final content as `build_mem`, reached by adding records more than once: mode 1 adds every record
+/// twice; mode 2 first adds, under each key, a DIFFERENT record (the file without its last segment and optional
+/// pieces, the xorb without its last chunk) and then the real one, which replaces it.
+pub fn build_mem_readded(s: &RShard, mode: u8) -> MDBInMemoryShard {
+    let mut m = MDBInMemoryShard::default();
+    for x in s.xorbs.values() {
+        if mode == 2 {
+            let mut y = x.clone();
+            y.chunks.pop();
+            m.add_cas_block(to_real_xorb(&y)).expect("add_cas_block");
+        } else {
+            m.add_cas_block(to_real_xorb(x)).expect("add_cas_block");
+        }
+        m.add_cas_block(to_real_xorb(x)).expect("add_cas_block");
+    }
+    for f in s.files.values() {
+        if mode == 2 {
+            let mut g = f.clone();
+            g.segs.pop();
+            g.verif = None;
+            g.sha = None;
+            m.add_file_reconstruction_info(to_real_file(&g)).expect("add_file_reconstruction_info");
+        } else {
+            m.add_file_reconstruction_info(to_real_file(f)).expect("add_file_reconstruction_info");
+        }
+        m.add_file_reconstruction_info(to_real_file(f)).expect("add_file_reconstruction_info");
+    }
+    m
+}
+
+/// A shard whose records were added more than once serializes like the plain one and accounts for its size.
+pub fn check_readded(want: &RShard, plain_bytes: &[u8]) -> Vec<Fail> {
+    let mut v = vec![];
+    for mode in [1u8, 2] {
+        let m = build_mem_readded(want, mode);
+        match serialize_mem(&m) {
+            Ok((b, _)) => {
+                if b != plain_bytes {
+                    fail(&mut v, "readded-serializes-differently", format!("records added twice (mode {mode}) serialize to {} bytes that differ from the shard built once ({} bytes)", b.len(), plain_bytes.len()));
+                }
+                if m.shard_file_size() != b.len() as u64 {
+                    fail(&mut v, "size-accounting", format!("records added twice (mode {mode}): shard_file_size() {} != serialized length {}", m.shard_file_size(), b.len()));
+                }
+            },
+            Err(e) => fail(&mut v, "serialize-error", format!("records added twice (mode {mode}): {e}")),
+        }
+    }
+    v
+}
+
 pub fn serialize_mem(m: &MDBInMemoryShard) -> Result<(Vec<u8>, MDBShardInfo), String> {
     let mut b = Vec::new();
     let info = MDBShardInfo::serialize_from(&mut b, m).map_err(|e| format!("serialize_from: {e:?}"))?;
